@@ -60,9 +60,12 @@ RxAfterEncap(rx, e, txPre) ==
   IF ~rx.lock \/ e.res.t \notin {"completed", "fragmented"} \/ Len(e.wire) < 2 THEN rx
   ELSE LET kind == HdrDecode(U16(e.wire, 1)).kind
            intended == IntendedLabel(txPre, e.label)
-           s == [pdu |-> e.pdu, intended |-> intended, ptype |-> e.ptype, exts |-> e.exts]
+           \* plain encap with a type below 0x0100: the type field is itself a final mandatory
+           \* extension without data, which the receiver reports in its extension list
+           exts == IF e.fn = "encap" /\ e.ptype < 256 THEN <<[id |-> e.ptype, data |-> <<>>]>> ELSE e.exts
+           s == [pdu |-> e.pdu, intended |-> intended, ptype |-> e.ptype, exts |-> exts]
        IN [rx EXCEPT !.pend = [valid |-> TRUE, wire |-> e.wire, kind |-> kind, id |-> e.fragid, pdu |-> e.pdu,
-                               intended |-> intended, ptype |-> e.ptype, exts |-> e.exts],
+                               intended |-> intended, ptype |-> e.ptype, exts |-> exts],
                      !.sess = IF e.res.t = "fragmented" THEN (e.fragid :> s) @@ rx.sess ELSE rx.sess]
 
 RxAfterFrag(rx, e) ==
@@ -109,7 +112,8 @@ JudgeDecapQ(e, rx, q, crc) ==
       pre   == rx.mem
       post  == e.mem
       probe == Has(e, "probe")
-      PP(ps) == IF probe THEN Append(ps, "C16") ELSE ps
+      \* probe packets also decide C16; for packets carrying extensions the delivery obligation is C13's
+      PP(ps) == (IF probe THEN Append(ps, "C16") ELSE ps) \o (IF delim /\ Len(w.exts) > 0 THEN <<"C13">> ELSE <<>>)
       id    == w.fragId
       kind  == IF delim THEN w.kind ELSE "none"
       isStart == kind \in {"complete", "first"}
